@@ -1,5 +1,6 @@
 import Driver.Common
 import Driver.OpsBrake
+import Driver.OpsEst
 import Driver.OpsHist
 import Driver.OpsMass
 import Driver.OpsNet
@@ -12,6 +13,7 @@ import Driver.OpsTrain
 namespace Driver
 def allHandlers : List (String × Handler) :=
   Driver.OpsBrake.handlers ++
+  Driver.OpsEst.handlers ++
   Driver.OpsHist.handlers ++
   Driver.OpsMass.handlers ++
   Driver.OpsNet.handlers ++
